@@ -1104,25 +1104,26 @@ class CircuitSerializer(serializer.Serializer):
             tags = [
                 deserialized_constants[tag_index]
                 for tag_index in operation_proto.tag_indices
-                if deserialized_constants[tag_index] not in op.tags
-                and deserialized_constants[tag_index] is not None
+                if deserialized_constants[tag_index] is not None
             ]
         else:
             tags = []
             for tag in operation_proto.tags:
-                if tag not in op.tags:
-                    if self.tag_deserializer and self.tag_deserializer.can_deserialize_proto(tag):
-                        tags.append(
-                            self.tag_deserializer.from_proto(
-                                tag,
-                                constants=constants or [],
-                                deserialized_constants=deserialized_constants or [],
-                            )
+                if self.tag_deserializer and self.tag_deserializer.can_deserialize_proto(tag):
+                    tags.append(
+                        self.tag_deserializer.from_proto(
+                            tag,
+                            constants=constants or [],
+                            deserialized_constants=deserialized_constants or [],
                         )
-                    elif (new_tag := self._deserialize_tag(tag)) is not None:
-                        tags.append(new_tag)
+                    )
+                elif (new_tag := self._deserialize_tag(tag)) is not None:
+                    tags.append(new_tag)
 
-        return op.with_tags(*tags)
+        # Tags restored from dedicated fields above (physical Z, calibration token) keep the
+        # position they have in the serialized tag list, so that the order of the tags survives.
+        restored = [tag for tag in op.tags if tag not in tags]
+        return op.untagged.with_tags(*restored, *tags) if op.tags else op.with_tags(*tags)
 
     def _deserialize_circuit_op(
         self,
